@@ -69,6 +69,13 @@ def run_property(prop, tier, groups, required_covers=None, assumptions=None, bou
         if budget_total:
             # so that what fits the budget is a spread sample of the list and not its head (VERIF_SEED picks another)
             random.Random(seed * 1000003 + gi).shuffle(g.jobs)
+            # ... with one job of every harness (and system) at the head, so that no harness is left out entirely
+            seen, head, tail = set(), [], []
+            for j in g.jobs:
+                k = (j["harness"], (j.get("params") or {}).get("sys"))
+                (tail if k in seen else head).append(j)
+                seen.add(k)
+            g.jobs[:] = head + tail
             budget_s = max(60, (budget_total - (time.time() - t0)) / (len(groups) - gi))
         out, err, wall = driver.run_engine(g.pkg, g.jobs, qtimeout_ms=qtimeout_ms, wall_timeout_s=wall_timeout_s, tests=g.tests, files=g.files, budget_s=budget_s)
         if err:
@@ -116,7 +123,12 @@ def run_property(prop, tier, groups, required_covers=None, assumptions=None, bou
     # ---- vacuity
     for c in required_covers or []:
         if covers.get(c, 0) == 0:
-            problems.append("vacuity: cover goal %r never reached" % c)
+            if not_run:
+                # the jobs that reach it may be among those the time budget left out: said, not judged
+                print("NOTE: cover goal %r not reached by the jobs that fitted the time budget" % c)
+                outside["cover goal not reached within the time budget: " + c] = 1
+            else:
+                problems.append("vacuity: cover goal %r never reached" % c)
     if tot["paths"] == 0:
         problems.append("vacuity: no path explored")
 
